@@ -230,6 +230,9 @@ def check_env():
         import bob.learn.em as pkg
     except Exception as e:  # the tree under test does not import: that is a finding of its own
         raise Infra(f"bob.learn.em does not import: {e!r}")
+    import dask
+
+    dask.config.set(scheduler="synchronous")  # default executor of the harness; other executors are chosen explicitly
     src = os.path.realpath(os.path.dirname(pkg.__file__))
     if not src.startswith(os.path.realpath(os.path.join(REPO, "src"))):
         raise Infra(f"bob.learn.em imported from {src}, not from {REPO}/src")
